@@ -659,3 +659,33 @@ func TestF64_NegativeSliceIndexIsAnErrorNotAPanic(t *testing.T) {
 		}
 	}
 }
+
+// F65 (C18): Cookie.VisitAll walks a Go map, so the order of the cookies in the Cookie header line changes from one
+// request to the next although the configuration is the same: the request is not a deterministic function of it.
+func TestF65_CookieHeaderOrderIsDeterministic(t *testing.T) {
+	app := fiber.New()
+	app.Get("/", func(c fiber.Ctx) error { return c.SendString(c.Get("Cookie")) })
+	ln, err := net.Listen("tcp", "127.0.0.1:0")
+	if err != nil {
+		t.Skip("no loopback listener")
+	}
+	go func() { _ = app.Listener(ln, fiber.ListenConfig{DisableStartupMessage: true}) }()
+	defer func() { _ = app.Shutdown() }()
+	url := "http://" + ln.Addr().String() + "/"
+	seen := map[string]bool{}
+	for i := 0; i < 24; i++ {
+		req := client.New().R()
+		for _, k := range []string{"a", "b", "c", "d", "e", "f", "g", "h"} {
+			req.SetCookie(k, "1")
+		}
+		resp, err := req.Get(url)
+		if err != nil {
+			t.Fatal(err)
+		}
+		seen[string(resp.Body())] = true
+		resp.Close()
+	}
+	if len(seen) != 1 {
+		t.Errorf("the same eight cookies produced %d different Cookie header lines in 24 requests", len(seen))
+	}
+}
